@@ -266,4 +266,87 @@ func c26(x *Ctx) {
 		c.Decide(ok, r5, "Stop", x.PosOf(st.Pos()), "wait for the dispatcher, send every remaining batch, wait for the senders", "Stop does not (in this order) wait for the dispatcher goroutine, send every remaining batch and wait for the sender pool: events still queued at shutdown are lost")
 	}
 	c.Min(r5, 1)
+
+	// ---- a destination's batch is created at most once: re-check under the write lock -----------------------------
+	const r6 = "C26.batch-created-once"
+	batchesF := eng.FieldIs("transmit", "DirectTransmission", "eventBatches")
+	bmF := eng.FieldIs("transmit", "DirectTransmission", "batchMutex")
+	for _, f := range x.PkgFuncs("transmit") {
+		eng.Instrs(f, func(in ssa.Instruction) {
+			mu, ok := in.(*ssa.MapUpdate)
+			if !ok || !loadsField(mu.Map, batchesF) {
+				return
+			}
+			if _, fresh := mu.Value.(*ssa.Alloc); !fresh {
+				if _, d := eng.Derives(mu.Value, func(v ssa.Value) bool { _, isA := v.(*ssa.Alloc); return isA }, eng.FlowOpts{}); !d {
+					return
+				}
+			}
+			c.Examined++
+			// from the write Lock that guards this store, a look-up of the same map comes first
+			var locks []ssa.Instruction
+			eng.Instrs(f, func(i2 ssa.Instruction) {
+				if cl, ok := eng.IsCall(i2, "(*sync.RWMutex).Lock", "(*sync.Mutex).Lock"); ok {
+					if fr, _, ok := eng.FieldRefOf(eng.Receiver(cl)); ok && bmF(fr) && eng.MayPrecede(i2, in) {
+						locks = append(locks, i2)
+					}
+				}
+			})
+			if len(locks) == 0 {
+				c.Violate(r6, BaseName(f)+"/eventBatches", x.Pos(in), "a batch is stored in the destination map without the write lock")
+				return
+			}
+			bad := false
+			for _, lk := range locks {
+				r := eng.Explore(eng.Query{Fn: f, Start: lk, Classify: func(i2 ssa.Instruction, _ eng.Facts) eng.Event {
+					if l2, ok := i2.(*ssa.Lookup); ok && loadsField(l2.X, batchesF) {
+						return eng.EvKill
+					}
+					if _, ok := eng.IsCall(i2, "(*sync.RWMutex).Unlock", "(*sync.Mutex).Unlock"); ok {
+						return eng.EvKill
+					}
+					if i2 == in {
+						return eng.EvSink
+					}
+					return eng.EvNone
+				}})
+				if len(r.Hits) > 0 {
+					bad = true
+				}
+			}
+			c.Decide(!bad, r6, BaseName(f)+"/eventBatches", x.Pos(in), "the map is looked up again under the write lock before a new batch is stored",
+				"a new batch is stored for a destination under the write lock without looking the destination up again: two goroutines that both missed under the read lock each store a batch, the second store replaces the first, and the events already placed in the first batch are never dispatched or flushed")
+		})
+	}
+	c.Min(r6, 1)
+
+	// ---- stale batches are looked at every quarter of the timeout (or more often) ---------------------------------------
+	const r7 = "C26.stale-ticker-period"
+	if ds := x.Fn(r7, "transmit", "DirectTransmission", "dispatchStaleBatches"); ds != nil {
+		btF := eng.FieldIs("transmit", "DirectTransmission", "batchTimeout")
+		n := 0
+		eng.Instrs(ds, func(in ssa.Instruction) {
+			cl, ok := in.(ssa.CallInstruction)
+			if !ok || !strings.HasSuffix(eng.CalleeName(cl), ".NewTicker") {
+				return
+			}
+			a := eng.CallArgs(cl)[0]
+			if _, d := eng.Derives(a, func(v ssa.Value) bool { return loadsField(v, btF) }, eng.FlowOpts{}); !d {
+				return // another ticker (metrics)
+			}
+			n++
+			c.Examined++
+			ok2 := false
+			if bo, isB := eng.StripConv(a).(*ssa.BinOp); isB && bo.Op == token.QUO && loadsField(eng.StripConv(bo.X), btF) {
+				if k, isK := eng.ConstInt(bo.Y); isK && k >= 4 {
+					ok2 = true
+				}
+			}
+			c.Decide(ok2, r7, "dispatchStaleBatches/ticker", x.Pos(in), "period = BatchTimeout / k with k ≥ 4",
+				"the stale-batch ticker's period is not BatchTimeout divided by at least 4 (it has a floor, a cap or another formula): a batch whose first event arrives just after a tick is dispatched later than 1.25 × BatchTimeout")
+		})
+		if n == 0 {
+			c.Undecided(r7, "dispatchStaleBatches/ticker", x.PosOf(ds.Pos()), "cannot find the ticker derived from BatchTimeout")
+		}
+	}
 }
